@@ -26,7 +26,7 @@ SQ3_PI = np.sqrt(3.0) / np.pi
 
 def jobs(tier, seed):
     n_jobs = 16 if tier == "quick" else 32
-    n_cases = 60 if tier == "quick" else 500
+    n_cases = 250 if tier == "quick" else 2500
     return [{"name": f"lik-{j}", "seed": seed, "j": j, "n_cases": n_cases,
              "n_norm": 3 if tier == "quick" else 12} for j in range(n_jobs)]
 
